@@ -27,6 +27,7 @@
 import QEModel.Base
 import QEModel.MatAlg
 import QEModel.Pivot
+import QEModel.C04
 namespace QE.C01
 open QE
 
@@ -264,48 +265,17 @@ end generic
 
 /-! ### the linear-programming method (ddp.py 915-947, _ddp_linprog_simplex.py)
 
-  `solveTableau` / `pivotCol` repeat `solve_tableau` / `_pivot_col` of
-  optimize/linprog_simplex.py (they are the subject of C04; repeated here so that this model
-  does not depend on another property's file); pivoting and the lexicographic ratio test are
-  the shared `QEModel.Pivot`. -/
+  `solve_tableau` / `_pivot_col` of optimize/linprog_simplex.py are the C04 model
+  (`QE.C04.solveTableau`, `QE.C04.pivotCol`), so that C04's invariants apply to this method;
+  pivoting and the lexicographic ratio test are the shared `QEModel.Pivot`. -/
 
 section lp
 variable {α : Type} [Zero α] [One α] [Add α] [Sub α] [Mul α] [Div α] [Neg α]
   [LT α] [LE α] [DecidableLT α] [DecidableLE α] [BEq α]
 
-/-- `PivOptions(fea_tol, tol_piv, tol_ratio_diff)` -/
-structure PivTol (α : Type) where
-  fea : α
-  piv : α
-  diff : α
-
-/-- `_pivot_col` (skip_aux=True): first column `j < stop` with the largest criterion
-    coefficient among those `> fea_tol` (strict `>` update) -/
-def pivotCol (T : M α) (stop : Nat) (feaTol : α) : Option Nat :=
-  ((List.range stop).foldl (fun (st : α × Option Nat) j =>
-    if st.1 < T.get (T.nr - 1) j then (T.get (T.nr - 1) j, some j) else st) (feaTol, none)).2
-
-/-- result of `solve_tableau`: status (0 optimal, 1 iteration cap, 3 unbounded), tableau,
-    basis, number of iterations -/
-structure TabRes (α : Type) where
-  status : Nat
-  T : M α
-  basis : List Nat
-  iters : Nat
-
-/-- the `while num_iter < max_iter` loop of `solve_tableau` with `skip_aux=True` -/
-def solveTableau (tol : PivTol α) : Nat → M α → List Nat → TabRes α
-  | 0, T, b => ⟨1, T, b, 0⟩
-  | fuel + 1, T, b =>
-    let L := T.nr - 1
-    match pivotCol T (T.nc - 1 - L) tol.fea with
-    | none => ⟨0, T, b, 1⟩
-    | some c =>
-      let pr := Pivot.lexMinRatio { T with nr := T.nr - 1 } c (T.nc - L - 1) tol.piv tol.diff
-      if pr.1 then
-        let r := solveTableau tol fuel (Pivot.pivot T c pr.2) (b.set pr.2 c)
-        { r with iters := r.iters + 1 }
-      else ⟨3, T, b, 1⟩
+/-- `PivOptions(fea_tol, tol_piv, tol_ratio_diff)`; `solve_tableau`, `_pivot_col` and the result
+    record are the C04 model (`QE.C04.solveTableau … skipAux := true`) -/
+abbrev PivTol (α : Type) := QE.C04.Tol α
 
 /-- the sorted pair arrays with their state index: column `j` of the tableau is the pair
     `cols[j] = (s_indices[j], (a_indices[j], R[j], Q[j]))` -/
@@ -340,6 +310,17 @@ def findCol (cols : List (Nat × Act α)) (i a : Nat) : Nat :=
 def lpStart (P : Prob α) (β : α) (basis0 : List Nat) : M α :=
   (List.range P.length).foldl (fun T i => Pivot.pivot T (basis0.getD i 0) i) (lpTableau P β)
 
+/-- validation of the `n` initial pivots (printed by the driver as `rstart`, hypothesis of
+    `QE.C01.lp_exit_optimal`): every pivot element met is non-zero and the right-hand sides of the
+    resulting tableau are non-negative.  (`QE.C01.lp_start_valid` proves that it holds for every
+    feasible start policy, well-formed problem and `0 ≤ β < 1`; the driver still evaluates it.) -/
+def lpStartChk (P : Prob α) (β : α) (basis0 : List Nat) : Bool :=
+  ((List.range P.length).foldl (fun (st : M α × Bool) i =>
+      (Pivot.pivot st.1 (basis0.getD i 0) i, st.2 && !(st.1.get i (basis0.getD i 0) == 0)))
+    (lpTableau P β, true)).2 &&
+  (List.range P.length).all fun i =>
+    decide (0 ≤ (lpStart P β basis0).get i ((lpCols P).length + P.length))
+
 /-- `ddp_linprog_simplex(R, Q, beta, a_indices, a_indptr, sigma, max_iter)`:
     `n` pivots onto the start policy, then `solve_tableau(max_iter - n, skip_aux=True)`;
     `v[i] = -tableau[-1, L+i]`, `sigma[i] = a_indices[basis[i]]`, `num_iter + n` -/
@@ -348,7 +329,7 @@ def lpSolve (tol : PivTol α) (P : Prob α) (β : α) (σ0 : List Nat) (maxIter 
   let L := cols.length
   let n := P.length
   let basis0 := (List.range n).map fun i => findCol cols i (σ0.getD i 0)
-  let r := solveTableau tol (maxIter - n) (lpStart P β basis0) basis0
+  let r := QE.C04.solveTableau tol true (maxIter - n) (lpStart P β basis0) basis0
   ⟨(List.range n).map fun i => r.T.get n (L + i) * (-(1 : α)),
    r.basis.map fun j => (cols.getD j dfltCol).2.a, r.iters + n, r.status == 0⟩
 
@@ -567,7 +548,10 @@ def handle (toks : List String) : String :=
               " rsigma=" ++ showList toString rr.sigma ++ " riters=" ++ toString rr.iters ++
               " rok=" ++ showBool rr.stopped ++ " rv=" ++ showList showRatShort rr.v ++
               -- the certificate of `lp_certified`, evaluated exactly on the exact run
-              " rcert=" ++ showBool (feasible P rr.sigma && tSigma P β rr.sigma rr.v == rr.v)
+              " rcert=" ++ showBool (feasible P rr.sigma && tSigma P β rr.sigma rr.v == rr.v) ++
+              -- the start validation of `lp_exit_optimal`, evaluated exactly
+              " rstart=" ++ showBool (lpStartChk P β
+                ((List.range P.length).map fun i => findCol (lpCols P) i (σ0.getD i 0)))
           | _, _ => "bad-op"
         | "bellman" =>
           match kvRats r "v" with
